@@ -19,7 +19,7 @@ RULE = ("stratified + seeded random (configuration, sample) pairs; non-trivial =
 REQUIRED = [f"ref_compared:{nn.label({'test': a, 'estim': b, 'bet': c})}" for a, b, c in nn.COMBOS] + \
            ["equiv_compared", "inverse_checked", "entries_eq", "entries_boundary", "stratum:nondyadic_boundary_neighbourhood", "stratum:early_wins_then_zeros_to_census", "stratum:long_sample",
             "stratum:exact_hit_then_zero_then_nondyadic", "inverse_checked_with_null_mean_outside_0_u",
-            "ref_compared:finite_N_given_as_a_numpy_integer"]
+            "ref_compared:finite_N_given_as_a_numpy_integer", "predictability_of_the_estimator_values_probed"]
 ASSUMPTIONS = ["eta_j and lambda_j are taken from the real estimator/bet (their ranges are C13's business)",
                "boundary-index conventions of DESIGN.md C12: at the index where the total first exceeds N t either the "
                "product value or 0 is accepted; where mu_j is within the code's tolerances of 0 or u either the product "
@@ -128,6 +128,27 @@ def run_case(case, rec):
         if len(h) != len(x):
             rec.violation("c12.ref", f"{lab}:history_length", {"len_x": len(x), "len_h": len(h)})
             return
+        seq = etas if etas is not None else lams
+        if seq is not None and 3 <= len(x) <= 200 and case.get("probe", hash((len(x), x[0], x[-1])) % 3 == 0):
+            # the definitions are products over PREDICTABLE eta_j / lambda_j: the values fed into the reference product must
+            # be functions of x_1..x_{j-1}.  Probe: the same prefix followed by a different tail (u - x) must give the
+            # same first k+1 values.
+            k = 1 + (len(x) * 7 + int(x[0] * 16)) % (len(x) - 1)
+            x2 = nn.to_array(x[:k] + [cfg["u"] - v for v in x[k:]], cfg)
+            obj2 = nn.build(cfg)
+            with np.errstate(all="ignore"):
+                try:
+                    s2 = _seq((obj2.estim if etas is not None else obj2.bet)(x2), len(x))
+                except Exception:
+                    s2 = None
+            if s2 is not None:
+                rec.count("predictability_of_the_estimator_values_probed")
+                for j in range(k + 1):
+                    a, b = seq[j], s2[j]
+                    if not (a == b or (a != a and b != b)):
+                        rec.violation("c12.ref", f"{lab}:values_fed_into_the_product_are_not_predictable",
+                                      {"index": j, "tail_changed_from": k, "value": a, "value_with_other_tail": b, "x": x})
+                        return
         exp = nnref.ref_history(cfg, x, etas=etas, lams=lams)
         rec.count(f"ref_compared:{lab}")
         if cfg.get("N_repr"):
